@@ -178,6 +178,11 @@ def _wrappers(sp, A, B):
         'OperatorVectorSum': A + v,
         'OperatorPointwiseProduct': odl.OperatorPointwiseProduct(A, B),
         'Neg': -A,
+        'FunctionalLeftVectorMult[inner]': odl.FunctionalLeftVectorMult(
+            odl.InnerProductOperator(_el(sp, _SIG)) * A, v),
+        'FunctionalLeftVectorMult[L2sq]': odl.FunctionalLeftVectorMult(
+            odl.solvers.L2NormSquared(sp) * A, v),
+        'Power3': A ** 3,
     }
 
 
@@ -187,7 +192,8 @@ BLOCK_NAMES = ['ScalingOperator', 'ScalingOperator0', 'IdentityOperator', 'ZeroO
                'prox_l2sq_g_elem']
 WRAP_NAMES = ['OperatorSum', 'OperatorSub', 'OperatorComp', 'OperatorLeftScalarMult',
               'OperatorRightScalarMult', 'OperatorLeftVectorMult', 'OperatorRightVectorMult',
-              'OperatorVectorSum', 'OperatorPointwiseProduct', 'Neg']
+              'OperatorVectorSum', 'OperatorPointwiseProduct', 'Neg',
+              'FunctionalLeftVectorMult[inner]', 'FunctionalLeftVectorMult[L2sq]', 'Power3']
 WRAP_LEAVES = ['ScalingOperator', 'MultiplyOperator[elem]', 'ResidualLike[I-c]', 'prox_box',
                'prox_l2sq_g_elem', 'PowerOperator2']
 
